@@ -139,7 +139,13 @@ static void pow2_relation(double u, double f1, int& sg, int& ex)
 		ex = 0;
 		return;
 	}
-	if(f1 == 0.0 || u == 0.0 || std::isnan(u) || std::isnan(f1) || std::isinf(u) || std::isinf(f1))
+	if(std::fabs(f1) < 1e-280 || std::fabs(u) < 1e-280)
+	{
+		sg = 0;	  // zero / subnormal range: scaling by a power of two is no longer exact (or says nothing)
+		ex = 0;
+		return;
+	}
+	if(std::isnan(u) || std::isnan(f1) || std::isinf(u) || std::isinf(f1))
 	{
 		sg = 2;
 		ex = 0;
